@@ -103,6 +103,8 @@ pub struct Ctx {
     /// after an escaped panic the enumeration is restarted and cases up to here are skipped
     pub skip_upto: u64,
     pub can_skip: bool,
+    /// properties refuted by a crate panic that escapes a case of the current workload
+    pub panic_props: Vec<&'static str>,
 }
 
 impl Ctx {
@@ -133,6 +135,7 @@ impl Ctx {
             sample_phase: if sample > 1 { seed % sample } else { 0 },
             skip_upto: 0,
             can_skip: true,
+            panic_props: Vec::new(),
         }
     }
 
@@ -228,7 +231,8 @@ impl Ctx {
             .to_string();
         if loc.contains("/repo/src/") {
             let short = loc.rsplit("/repo/").next().unwrap_or(&loc).to_string();
-            for p in ["C11", "C07", "C01"] {
+            let props: Vec<&'static str> = if self.panic_props.is_empty() { vec!["C11", "C07", "C01"] } else { self.panic_props.clone() };
+            for p in props {
                 self.violation(
                     p,
                     format!("crate_panic_outside_operation@{}|near={}", short, opname),
